@@ -1,6 +1,8 @@
 package frac
 
 import (
+	"sync"
+
 	"github.com/ozontech/seq-db/seq"
 	rt "github.com/ozontech/seq-db/verifrt"
 )
@@ -151,6 +153,51 @@ func VerifRedeliver() {
 	for i, m := range first {
 		_ = i
 		rt.Assert(dp.Get(m.md.ID) != seq.DocPosNotFound, "first delivery stays fetchable")
+	}
+	rt.Reach("end")
+}
+
+// VerifConcurrentRedeliver: two deliveries of the same documents (a proxy retry racing the
+// original, or the index workers replaying a fraction's meta blocks back to back) reach
+// DocsPositions.SetMultiple concurrently, with a context switch explored before every lock
+// operation: each document is accepted from exactly one of them and keeps that one's position.
+func VerifConcurrentRedeliver() {
+	for r := 0; r < rt.Repeat(); r++ {
+		vConcurrentRedeliver()
+	}
+}
+
+func vConcurrentRedeliver() {
+	dp := NewSyncDocsPositions()
+	ids := []seq.ID{{MID: 10, RID: 1}, {MID: 11, RID: 2}}
+	pos := [][]seq.DocPos{
+		{seq.PackDocPos(0, 0), seq.PackDocPos(0, 8)}, // first delivery: block 0
+		{seq.PackDocPos(1, 0), seq.PackDocPos(1, 8)}, // the repeat: block 1
+	}
+	var wg sync.WaitGroup
+	res := make([][]seq.ID, 2)
+	for g := 0; g < 2; g++ {
+		wg.Add(1)
+		go func() {
+			defer wg.Done()
+			res[g] = dp.SetMultiple(ids, pos[g])
+		}()
+	}
+	wg.Wait()
+	for i, id := range ids {
+		n, winner := 0, -1
+		for g := 0; g < 2; g++ {
+			for _, a := range res[g] {
+				if a == id {
+					n++
+					winner = g
+				}
+			}
+		}
+		rt.Assert(n == 1, "a document delivered twice concurrently is accepted exactly once")
+		if n == 1 {
+			rt.Assert(dp.GetSync(id) == pos[winner][i], "the stored position is the accepted delivery's")
+		}
 	}
 	rt.Reach("end")
 }
